@@ -19,6 +19,8 @@ import (
 type vfGen struct {
 	b       []byte
 	tier    int
+	sub     int // budget for one nested deviation inside a deviating variant
+	nest    int
 	budget  int  // how many more non-default variants this path may take
 	plainWS bool // gaps are single spaces (used by harnesses that vary gaps themselves)
 	gaps    []int // byte offsets of inter-token gaps (offset of the gap's first byte)
@@ -72,7 +74,19 @@ func (g *vfGen) kws(words ...string) {
 // (one-at-a-time coverage for budget 1, pairwise for 2), so the number of
 // shapes grows with the sum, not the product, of the variant counts.
 func (g *vfGen) pick(n int) int {
-	if g.budget <= 0 || n <= 1 {
+	if n <= 1 {
+		return 0
+	}
+	if g.budget <= 0 {
+		// inside a variant that was itself a deviation (g.nest > 0) one further, nested deviation is
+		// allowed when the harness asked for it (sub): `*::field`, `-f(x)`, `count()`, `1.5` as an operand
+		if g.nest > 0 && g.sub > 0 {
+			k := vfChoice(n)
+			if k != 0 {
+				g.sub--
+			}
+			return k
+		}
 		return 0
 	}
 	k := vfChoice(n)
@@ -271,7 +285,9 @@ func (g *vfGen) duration() time.Duration {
 var vfRegexes = []string{"a.*", "^x$", `a\/b`, "(?i)q", "[0-9]+", `a\\\/b`, `a\\/b`}
 
 func (g *vfGen) regex() *RegexLiteral {
+	g.nest++ // a regex is (almost) always reached through a deviating variant: its body is a nested choice
 	r := vfRegexes[g.pick(len(vfRegexes))]
+	g.nest--
 	g.raw("/" + r + "/")
 	// the pattern between the slashes with \/ unescaped
 	pat := ""
@@ -341,13 +357,17 @@ func (g *vfGen) literal() Expr {
 	case 0:
 		return &IntegerLiteral{Val: int64(g.integer(0, math.MaxInt64))}
 	case 1:
+		g.nest++
 		n := vfNumbers[g.pick(len(vfNumbers))]
+		g.nest--
 		g.raw(n.sp)
 		return &NumberLiteral{Val: n.v}
 	case 2:
 		return &StringLiteral{Val: g.str()}
 	case 3:
+		g.nest++
 		b := g.pick(2) == 0
+		g.nest--
 		if b {
 			g.kw("TRUE")
 		} else {
@@ -379,7 +399,12 @@ func (g *vfGen) operand(depth int, inField bool) Expr {
 	if depth > 0 {
 		n = 7
 	}
-	switch g.pick(n) {
+	k := g.pick(n)
+	if k != 0 {
+		g.nest++
+		defer func() { g.nest-- }()
+	}
+	switch k {
 	case 0:
 		return g.varref()
 	case 1:
